@@ -264,9 +264,12 @@ def aggregate(ctx):
               expected='agg[<grouper column>] = "size"; rename[<same column>] = "count"',
               reason='"size" counts every record of the group ("count" would skip NaN)')
     if sz:
-        g = [T.show(c) for c, p in sz[0].guards if p]
-        ctx.check(any("'count' not in" in x and 'count' in x for x in g), R, 'count-guard', ctx.where(fa, sz[0]), found=g,
-                  expected='count and "count" not in agg')
+        truths = []
+        for t in sorted(sz[0].nguards, key=repr):
+            truths.extend(t[1] if t[0] == 'and' else [t])
+        g = [T.show(c) for c in truths]
+        okg = V('count') in truths and any(c[0] == 'cmp' and c[1] == 'notin' and c[2] == C('count') for c in truths)
+        ctx.check(okg, R, 'count-guard', ctx.where(fa, sz[0]), found=g, expected='count and "count" not in agg')
 
 
 def _bin2_expected(ctx, pos2, cid2, self_gs='self.gs'):
